@@ -1368,6 +1368,19 @@ pub fn s_huge(cx: &mut Ctx) {
                         cx_op!(cx, format!("compose {} 1 {}", f, g2));
                     }
                     cx_op!(cx, format!("compose {} 1 {}", g, f2));
+                    // … and with the far-apart nodes inside the FIRST argument, below its top variable and above
+                    // the substituted variable, the substituted function independent of that top variable (both
+                    // nodes are met with the same second argument)
+                    if vars.len() >= 6 {
+                        let nvv = vars.len();
+                        let hd = cx_op!(cx, format!("xor {} {}", vars[nvv - 1], vars[nvv - 3]));
+                        for &gg in &[g, g2] {
+                            cx_op!(cx, format!("compose {} {} {}", gg, nvv, hd));
+                            cx_op!(cx, format!("compose {} {} {}", gg, nvv - 1, hd));
+                            cx_op!(cx, format!("compose {} {} {}", gg, nvv / 2 + 1, vars[nvv - 2]));
+                            cx_op!(cx, format!("subst {} {} 1", gg, nvv));
+                        }
+                    }
                     cx_op!(cx, format!("constrain {} {}", f1, g));
                     cx_op!(cx, format!("restrict {} {}", f3, g));
                     cx_op!(cx, format!("constrain {} {}", g, f1));
@@ -1419,6 +1432,19 @@ pub fn s_huge(cx: &mut Ctx) {
             }
             cx_op!(cx, format!("dot {}", p2));
             cx_op!(cx, format!("bracket {}", p1));
+            // a further collection in which the old diagram (high cells) is reachable only through its
+            // young parents (low cells), in a table that has been used beyond 2^16 cells
+            let mut roots2: Vec<String> = vars.iter().map(|h| h.to_string()).collect();
+            roots2.extend(filler.iter().map(|h| h.to_string()));
+            roots2.extend(structured.iter().map(|h| h.to_string()));
+            roots2.push(p2.to_string());
+            cx_op!(cx, format!("gc {}", roots2.join(" ")));
+            for &p in &[p2, p1, bigf] {
+                cx_op!(cx, format!("size {}", p));
+                cx_op!(cx, format!("satcount {} {}", p, nv));
+            }
+            // rebuild the top of the old diagram by another route: the identical handle
+            cx_op!(cx, format!("node 2 1 {}", bigf));
         }
         lap("gc done");
         cx.op("digest".into());
